@@ -2,21 +2,33 @@
 PROP = dict(
         pkg="c12", level="exploration",
         technique=("property-based simulation (rapid): n real tendermint state machines + real vote counters behind a generator-owned "
-                   "adversarial network with Byzantine validators; safety oracles from the Tendermint paper evaluated on every action; "
+                   "adversarial network with Byzantine validators, several heights, an application whose validity judgement depends on the "
+                   "validator's height and decided prefix (chain), Byzantine replay of values/messages of other heights; safety oracles from the "
+                   "Tendermint paper evaluated on every action (validity asked of the application model at prevote, precommit and commit time); "
                    "exhaustive + random arithmetic check of the quorum and f+1 thresholds"),
-        level_text=("Exploration: sampled schedules (tens of thousands per run, <= 400 steps each) over delivery order, duplication, loss, "
-                    "late re-delivery, timeout firing and Byzantine messages; adversarial skeletons (split-brain proposer, lock-then-starve, "
-                    "laggard/round skip, partitions) bias the search to deep states. Not exhaustive even for n=4,f=1: the state machine cannot "
+        level_text=("Exploration: sampled schedules (tens of thousands per run, <= 400-700 steps each, 1-4 heights, >= 2 heights decided in 40-50% "
+                    "of the cases) over delivery order, duplication, loss, late re-delivery (also of messages of heights already left), timeout firing "
+                    "(also timeouts scheduled at an earlier height firing in the new one) and Byzantine messages whose values come from this height, "
+                    "from earlier heights (decided there, or proposed and not decided), from later heights or from forks; adversarial skeletons "
+                    "(split-brain proposer, lock-then-starve, laggard/round skip, partitions; placed at a drawn height so that later heights are "
+                    "entered with the leftovers of earlier ones) bias the search to deep states. Not exhaustive even for n=4,f=1: the state machine cannot "
                     "be cloned for DFS. The threshold arithmetic IS exhaustive for unit validators N<=45 and all 2-/3-validator splits of N<=30."),
         rule=("A case = validator set (n=4,f=1 with unit powers, or n in 1..7 with drawn powers, Byzantine power < N/3, often at the limit, powers "
-              "may change per height), application validity predicate, 1-3 heights, a profile and up to 400 rapid-drawn steps (deliver / duplicate / "
-              "drop / fire timeout / Byzantine injection from {proposal,prevote,precommit} x {b1,b2,values proposed so far,nil} x round x validRound "
-              "to a drawn subset, optional second face to the rest / late re-gossip). Non-trivial = (a correct validator entered a later round "
-              "while locked, or conflicting messages of one faulty validator for one (kind,height,round) reached >= 2 correct validators) and >= 1 "
-              "commit; arithmetic cases: some voter subset within 1 of a threshold. Distinct = SHA-256 of the executed schedule."),
+              "may change per height), application kind (75% chain: a value is built for one height on one parent and is valid only for a validator "
+              "deciding that height whose decided chain ends with that parent, content drawn good/bad; 25% height-independent drawn predicate), "
+              "1-4 heights, a profile (skeleton height drawn) and up to 300+100*heights rapid-drawn steps (deliver / duplicate / "
+              "drop / fire timeout, stale ones of earlier heights with a drawn weight / Byzantine injection from {proposal,prevote,precommit} x "
+              "{own values for this height, values proposed at this height, values decided at earlier heights, values proposed but not decided at "
+              "earlier heights, values built for later heights, forks on a non-decided parent, nil} x round x validRound "
+              "to a drawn subset, optional second face to the rest; a faulty validator re-sending anybody's message of an earlier height with only the "
+              "height rewritten / late re-gossip of correct and faulty messages, a drawn share from heights the recipient has left). Non-trivial = "
+              "(a correct validator entered a later round while locked, or conflicting messages of one faulty validator for one (kind,height,round) "
+              "reached >= 2 correct validators, or a value of an earlier height named again by a faulty validator at a later height reached >= 2 correct "
+              "validators) and >= 1 commit; arithmetic cases: some voter subset within 1 of a threshold. Distinct = SHA-256 of the executed schedule."),
         assumptions=["messages are authenticated: a faulty validator cannot use a correct validator's address as sender (p2p layer's job per consensus/types/messages.go)",
                      "every proposal carries a non-nil value (the p2p proposal stream builds it)",
-                     "the application's Valid predicate is deterministic and identical on all validators; Value() of a correct validator is valid",
+                     "the application's Valid judgement is a deterministic function of (the validator's height and decided prefix, the value), identical on all validators and constant while a validator stays at one height; Value() of a correct validator is valid at the height it was asked for",
+                     "the driver applies a committed value to the application before it starts the next height (the harness application's chain advances when the Commit action is handled)",
                      "the driver calls ProcessStart(0) immediately after a Commit and before any other input (driver.listen); a validator that decided the last height of the run leaves the simulation",
                      "the sync service (TriggerSync/ProcessSync) is not modelled; TriggerSync is a no-op",
                      "liveness is not checked"],
